@@ -13,6 +13,9 @@ if __name__ == "__main__":
     sys.path.insert(0, os.path.join(os.path.dirname(os.path.dirname(os.path.abspath(__file__))), "lib"))
 import vf
 
+if hasattr(sys, "set_int_max_str_digits"):
+    sys.set_int_max_str_digits(0)          # isprimepower cases have 10^4-digit arguments
+
 AREA = "C12"
 SRC = {
     "prime_h": "src/kernel/integer/givintprime.h",
@@ -352,6 +355,55 @@ def prev_prime(p):          # documented value 2 at the low end
     return n
 
 
+def iroot(n, k):
+    """floor(n^(1/k)) for n >= 0, k >= 1 (Newton on integers)"""
+    if n < 2 or k == 1:
+        return n
+    bl = n.bit_length()
+    if k >= bl:
+        return 1
+    x = 1 << ((bl + k - 1) // k)          # >= the root
+    while True:
+        y = ((k - 1) * x + n // x ** (k - 1)) // k
+        if y >= x:
+            return x
+        x = y
+
+
+_PRIMES_TO = {}
+
+
+def primes_upto(m):
+    if m not in _PRIMES_TO:
+        sv = sieve(m + 1)
+        _PRIMES_TO[m] = [i for i in range(2, m + 1) if sv[i]]
+    return _PRIMES_TO[m]
+
+
+def prime_power(n):
+    """(e, r) with r prime, e >= 1 and r^e = n, or None.  Integer roots for every prime exponent, then deterministic
+    Miller-Rabin on the root: independent of how n was built."""
+    if n < 2:
+        return None
+    if n % 2 == 0:
+        k = (n & -n).bit_length() - 1
+        return (k, 2) if n == 1 << k else None
+    e = 1
+    again = True
+    while again:
+        again = False
+        for k in primes_upto(max(2, n.bit_length())):
+            if k > n.bit_length():
+                break
+            r = iroot(n, k)
+            if r < 2:
+                break
+            if r ** k == n:
+                n, e, again = r, e * k, True
+                break
+    return (e, n) if is_prime(n) else None
+
+
 def rand_prime(rng, bits):
     while True:
         n = rng.bits(bits) | 1 | (1 << (bits - 1))
@@ -579,6 +631,50 @@ def gen_cases(rng, tier, chk):
         add("ipp", [p ** 2 * q ** 2], "ipp", {p: 2, q: 2}, "perfect square, two primes")
         add("ipp", [4 * p], "ipp", {2: 2, p: 1}, "4p")
         add("ipp", [(1 << rng.range(2, 70)) * (p if rng.chance(1, 2) else 1)], "ipp", None, "power of two times")
+    # isprimepower at every bound of the file's tables: bases around the last table prime 997 / SMALLEST_OMITTED_PRIME 1009 /
+    # TABMAX / TABMAX2, exponents (prime, composite with such a factor) around the same bounds -- numbers of up to ~40000 bits,
+    # which the real code answers in milliseconds -- and non-powers next to them
+    bases = [2, 3, 5, 991, 997, 1009, 1013, 10007, 32749, 32771, 65521, 65537]
+    exps = [2, 3, 4, 6, 9, 25, 49, 121, 991, 997, 1009, 1013, 1019, 2 * 997, 2 * 1009, 3 * 1009, 3 * 1013, 2 * 1021, 997 * 2 * 2, 1031, 1499, 2003]
+    big = []
+    for p in bases:
+        for e in exps:
+            if p.bit_length() * e <= ((45000 if thorough else 36000) if p >= 991 else 6000):
+                big.append((p, e))
+    if not thorough:                     # all pairs with a bound-sized exponent, a sample of the rest
+        keep = [pe for pe in big if pe[1] >= 991 and pe[0] >= 991 and pe[0] <= 1013 or pe[1] < 991]
+        rest = [pe for pe in big if pe not in keep]
+        rng.shuffle(rest)
+        big = keep + rest[:30]
+    for p, e in big:
+        n = p ** e
+        cl = "huge p^e, p %s 1009, e %s" % ("<" if p < 1009 else ">=", "prime" if is_prime(e) else "composite")
+        add("ipp", [n], "ipp", {p: e}, cl)
+        if e >= 991 and rng.chance(1, 3 if not thorough else 1):
+            q = next_prime(p)
+            add("ipp", [n + 2], "ipp", None, "huge non-power p^e+2")
+            add("ipp", [n * q], "ipp", {p: e, q: 1}, "huge non-power p^e*q")
+            add("ipp", [p ** (e - 1) * q], "ipp", {p: e - 1, q: 1}, "huge non-power p^(e-1)*q")
+            add("ipp", [-n], "ipp", {p: e}, "n<0")
+    for p in (1009, 1013, 65537):        # perfect powers of composites with large prime-power shape
+        q = next_prime(p)
+        add("ipp", [(p * q) ** 1009], "ipp", {p: 1009, q: 1009}, "huge (pq)^1009")
+        add("ipp", [(p * q) ** 2], "ipp", {p: 2, q: 2}, "(pq)^2")
+    # small semiprimes of primes just above the primorial bound 97: Pollard's "failure with the initial value" branch
+    # (all cycles close at once) is taken about once in a hundred calls here
+    p101 = [x for x in SMALLP if 101 <= x <= 499]
+    for k in range(150 if not thorough else 3000):
+        p, q = rng.choice(p101), rng.choice(p101)
+        f = {p: 1, q: 1} if p != q else {p: 2}
+        n = p * q
+        for v in ("factor", "iffactorprime", rng.choice(["set2.vec", "set2.list", "set2.deque"]), "divisors.n", rng.choice(["primefactor", "set1.vec", "write", "pollard"])):
+            add(v, [n], "factor1" if v in ("factor", "iffactorprime", "primefactor", "pollard") else "set", f, "semiprime 101..499")
+    # a few semiprimes whose factors need far more than TABMAX2 = 65536 Pollard iterations, through every complete-factorisation form
+    for k in range(2 if not thorough else 6):
+        p, q = rand_prime(rng, 37), rand_prime(rng, 38)
+        f = {p: 1, q: 1}
+        for v in ("divisors.n", "set2.vec", "write", "set1.vec", "primefactor"):
+            add(v, [p * q if v != "write" else -p * q], "factor1" if v == "primefactor" else "set", f, "semiprime ~2^75")
     chk.cov["cases_by_kind"] = {}
     for c in C:
         chk.cov["cases_by_kind"][c["kind"]] = chk.cov["cases_by_kind"].get(c["kind"], 0) + 1
@@ -737,7 +833,7 @@ def ipp_class(c):
     f = c["fac"]
     if f is not None and len(f) == 1:
         (p, e), = f.items()
-        if e >= 2 and p >= 1009 and not is_prime(e):
+        if e >= 2 and p >= 1009 and not is_prime(e) and c["klass"].startswith("p^e"):
             return "n=p^e, p>=1009, e composite"
     return c["klass"] or "other"
 
@@ -924,16 +1020,12 @@ def spec_check(chk, c, out, K, sv):
         if e is None:
             return fail(ipp_class(c), "an integer")
         want = None
-        if n >= 2 and f is not None and len(f) == 1:
-            (p, ex), = f.items()
-            if ex >= 2:
-                want = (ex, p)
-        if n >= 2 and f is None:          # power of two times something: decide here
-            m, k = n, 0
-            while m % 2 == 0:
-                m //= 2; k += 1
-            if m == 1 and k >= 2:
-                want = (k, 2)
+        if n >= 2 and (n.bit_length() <= 50000):
+            pp = prime_power(n)
+            if pp is not None and pp[0] >= 2:
+                want = pp
+            if f is not None and len(f) == 1 and list(f.values())[0] >= 2 and want != (list(f.values())[0], list(f.keys())[0]):
+                chk.broke("python prime-power oracle disagrees with the construction of the case %s" % str(f)[:80])
         if want is None:
             if e != 0:
                 return fail(ipp_class(c), 0, "n is not a proper prime power")
@@ -1034,7 +1126,7 @@ def main(tier, replay=None):
     sv = sieve(1 << 17)
     cases = gen_cases(rng, tier, chk)
     impl_in = "".join("%s %s\n" % (c["v"], " ".join(str(x) for x in c["args"])) for c in cases)
-    rc, iout, ierr = vf.run_lines(himpl, impl_in, timeout=1500, args=["4" if tier == "quick" else "60"])
+    rc, iout, ierr = vf.run_lines(himpl, impl_in, timeout=1500, args=["12" if tier == "quick" else "90"])
     if rc != 0 or len(iout) != len(cases):
         bad = cases[len(iout)] if len(iout) < len(cases) else None
         chk.broke("implementation harness failed (rc=%s, %d/%d lines); next case: %s" % (rc, len(iout), len(cases), bad and (bad["v"], bad["args"])), ierr)
@@ -1067,7 +1159,7 @@ def main(tier, replay=None):
             for n in range(c["args"][0], c["args"][1]):
                 chk.distinct.add((c["v"], n))
         if i % 211 == 0:
-            chk.sample({"variant": c["v"], "args": [str(x) for x in c["args"]][:4], "impl": out[:80], "class": c["klass"]})
+            chk.sample({"variant": c["v"], "args": [str(x)[:60] for x in c["args"]][:4], "impl": out[:80], "class": c["klass"]})
         if out.startswith("HANG") or out.startswith("CRASH"):
             hangs += 1
         wrong = spec_check(chk, c, out, K, sv)
@@ -1082,7 +1174,7 @@ def main(tier, replay=None):
                         if x != y:
                             d = " first difference at n=%d: impl=%s model=%s" % (c["args"][0] + j, x, y); break
                 chk.broke("correspondence model/implementation differs on %s %s: model=%s impl=%s%s"
-                          % (c["v"], [str(x) for x in c["args"]][:6], mm[:120], mi[:120], d))
+                          % (c["v"], [str(x)[:80] for x in c["args"]][:6], mm[:120], mi[:120], d))
     if os.environ.get("C12_DEBUG"):
         json.dump({"failing": chk.failing, "broken": chk.broken}, open(os.path.join(vf.BUILD, "logs", "C12.debug.json"), "w"), indent=1, default=str)
     if len(chk.broken) > 20:
